@@ -396,7 +396,7 @@ func genBadDep(t *rapid.T) BadDep {
 
 var specC04Malformed = Register(&Spec[BadDep]{
 	Prop: "C04", Name: "malformed",
-	Rule: "one corruption of a valid canonical field, each its own class: closing ] ) > or } missing from a construct (at the end of input, or followed by further valid relations or alternatives whose own closers must not be borrowed); a NUL byte anywhere with more text behind it; a known operator with a third operator character glued on ('>==1'); an opener ( [ < inside an open clause of the same alternative; clauses without a package name; a '$' that is not followed by '{'; a ${substvar} followed by anything but ',' '|' or the end (a name, a second substvar, a clause); mixed negation in an arch list; a second (version) clause; a second [arch] list; a ',' or '|' inside an open clause ('[amd64, i386]', '<a | b>', '(>= 1, 2)'); a '!' behind or inside a profile or architecture name (<nocheck!>, [amd64!]); a clause with nothing in it ('(>= )', a ':' without a qualifier, '[!]', '<!>', a '!' followed by a blank); half an operator (U0: a lone '<' '>' '!' '~' '-' '+' in front of the version); an unknown operator not starting with '=' (U1: ~= != >< <> ~ ^ ...) or starting with '=' (U2: == => =<); two names separated only by blanks - optionally preceded (and where sound followed) by valid relations. Oracle: Parse returns (nil, error) and UnmarshalControl returns an error and leaves no relations in its receiver; a fixed valid field parsed right afterwards through either entry point comes out as written. Every case is non-trivial; distinct by text.",
+	Rule: "one corruption of a valid canonical field, each its own class: closing ] ) > or } missing from a construct (at the end of input, or followed by further valid relations or alternatives whose own closers must not be borrowed); a NUL byte anywhere with more text behind it; a known operator with a third operator character glued on ('>==1'); an opener ( [ < inside an open clause of the same alternative; clauses without a package name; a '$' that is not followed by '{'; a ${substvar} followed by anything but ',' '|' or the end (a name, a second substvar, a clause); mixed negation in an arch list; a second (version) clause; a second [arch] list; a ',' or '|' inside an open clause ('[amd64, i386]', '<a | b>', '(>= 1, 2)'); a '!' behind or inside a profile or architecture name (<nocheck!>, [amd64!]); a clause with nothing in it ('(>= )', a ':' without a qualifier, '[!]', '<!>', a '!' followed by a blank); half an operator (U0: a lone '<' '>' '!' '~' '-' '+' in front of the version); an unknown operator not starting with '=' (U1: ~= != >< <> ~ ^ ...) or starting with '=' (U2: == => =<); two names separated only by blanks - optionally preceded (and where sound followed) by valid relations. Oracle: Parse returns (nil, error) and UnmarshalControl returns an error and leaves no relations in a fresh receiver (a receiver that held a field before is empty afterwards or still holds exactly that field); a fixed valid field parsed right afterwards through either entry point comes out as written. Every case is non-trivial; distinct by text.",
 	Check: func(c BadDep, r *Recorder) error {
 		r.Case(c.Text, true, "malformed:"+c.Class)
 		r.Sample(c)
@@ -431,6 +431,15 @@ var specC04Malformed = Register(&Spec[BadDep]{
 		_ = d2.UnmarshalControl(c.Text)
 		if err := d2.UnmarshalControl("canary-pkg (>= 1.0~c)"); err != nil || d2.String() != "canary-pkg (>= 1.0~c)" {
 			return errf("after rejecting %q, UnmarshalControl of a valid field gives %q, err %v", c.Text, d2.String(), err)
+		}
+		// ... and a receiver that held a field before the rejected one shows nothing of the rejected
+		// field afterwards: it is empty, or (an implementation that touches the receiver only on
+		// success) still exactly what it held
+		if err := d2.UnmarshalControl(c.Text); err == nil {
+			return errf("UnmarshalControl(%q) into a used receiver accepted a %s field", c.Text, c.Class)
+		}
+		if after := d2.String(); len(d2.Relations) != 0 && after != "canary-pkg (>= 1.0~c)" {
+			return errf("UnmarshalControl(%q) into a receiver holding %q returned an error and left %q there", c.Text, "canary-pkg (>= 1.0~c)", after)
 		}
 		_ = canary
 		return nil
